@@ -19,6 +19,7 @@ template <class E> struct VecRun {
         R.apiMethods = "push_back,pop_back,insert,erase,assign,resize,reserve,clear,swap,operator=,operator[],at,front,back,begin,end,rbegin,rend,size,empty,capacity,XalanVector";
         a = new V(R.mm, (size_t)(R.plan.at("knobs").num("cap", 0) & 15));
         b = new V(R.mm);
+        R.snapshot = [this] { Json o = Json::object(); o["op"] = "force_state"; o["a"] = jsonInts(ma); o["b"] = jsonInts(mb); return o; };
     }
     static std::vector<int> read(const V& v) {
         std::vector<int> r; for (typename V::const_iterator it = v.begin(); it != v.end(); ++it) r.push_back(E::id(*it)); return r;
@@ -51,7 +52,13 @@ template <class E> struct VecRun {
         const std::string o = R.op->str("op"); R.kind = o; R.stateClass = stateOf(*a);
         const size_t n = ma.size(); const size_t cap0 = a->capacity();
         std::vector<int> post = ma;
-        if (o == "push_back") {
+        if (o == "force_state") {
+            const std::vector<int> va = R.vals("a"), vb = R.vals("b"); V ta(R.mm), tb(R.mm);
+            for (int v : va) { Val x(v, R.mm); ta.push_back(x.x); } for (int v : vb) { Val x(v, R.mm); tb.push_back(x.x); }
+            if (E::counted) R.extraLive = (long)(va.size() + vb.size());
+            const V& ca = ta; const V& cb = tb; a->assign(ca.begin(), ca.end()); b->assign(cb.begin(), cb.end());
+            after(va, ATOMIC, &vb, ATOMIC);
+        } else if (o == "push_back") {
             Val x(R.vid(), R.mm); post.push_back(R.vid());
             R.call([&] { a->push_back(x.x); }); after(post, ATOMIC);
         } else if (o == "push_back_alias") {
@@ -179,6 +186,7 @@ template <class E> struct ListRun {
         R.apiClass = "XalanList";
         R.apiMethods = "push_back,push_front,pop_back,pop_front,insert,erase,splice,clear,swap,front,back,begin,end,rbegin,rend,size,empty,XalanList";
         a = new L(R.mm); b = new L(R.mm);
+        R.snapshot = [this] { Json o = Json::object(); o["op"] = "force_state"; o["a"] = jsonInts(ma); o["b"] = jsonInts(mb); return o; };
     }
     static std::vector<int> read(const L& l) {
         std::vector<int> r; size_t guard = 0;
@@ -212,7 +220,12 @@ template <class E> struct ListRun {
         const std::string o = R.op->str("op"); R.kind = o; R.stateClass = stateOf(*a);
         const size_t n = ma.size(); const bool hadFree = a->freeNonEmpty();
         std::vector<int> post = ma;
-        if (o == "push_back") { Val x(R.vid(), R.mm); post.push_back(R.vid()); R.call([&] { a->push_back(x.x); }); after(post); }
+        if (o == "force_state") {
+            const std::vector<int> va = R.vals("a"), vb = R.vals("b"); a->clear(); b->clear();
+            for (int v : va) { Val x(v, R.mm); a->push_back(x.x); } for (int v : vb) { Val x(v, R.mm); b->push_back(x.x); }
+            after(va, &vb);
+        }
+        else if (o == "push_back") { Val x(R.vid(), R.mm); post.push_back(R.vid()); R.call([&] { a->push_back(x.x); }); after(post); }
         else if (o == "push_front") { Val x(R.vid(), R.mm); post.insert(post.begin(), R.vid()); R.call([&] { a->push_front(x.x); }); after(post); }
         else if (o == "pop_back") { if (!n) return skip(); post.pop_back(); R.call([&] { a->pop_back(); }); after(post); }
         else if (o == "pop_front") { if (!n) return skip(); post.erase(post.begin()); R.call([&] { a->pop_front(); }); after(post); }
@@ -272,6 +285,7 @@ template <class E> struct DequeRun {
         const size_t init = (size_t)(kn.num("init", 0) & 7);
         a = new D(R.mm, init, bsA); b = new D(R.mm, 0, bsB);
         ma.assign(init, 0);
+        R.snapshot = [this] { Json o = Json::object(); o["op"] = "force_state"; o["a"] = jsonInts(ma); o["b"] = jsonInts(mb); return o; };
     }
     static std::vector<int> read(const D& d) {
         std::vector<int> r; size_t guard = 0;
@@ -302,7 +316,12 @@ template <class E> struct DequeRun {
         const std::string o = R.op->str("op"); R.kind = o; R.stateClass = stateOf(ma, bsA);
         const size_t n = ma.size();
         std::vector<int> post = ma;
-        if (o == "push_back") { Val x(R.vid(), R.mm); post.push_back(R.vid()); R.call([&] { a->push_back(x.x); }); after(post, ATOMIC); }
+        if (o == "force_state") {
+            const std::vector<int> va = R.vals("a"), vb = R.vals("b"); a->clear(); b->clear();
+            for (int v : va) { Val x(v, R.mm); a->push_back(x.x); } for (int v : vb) { Val x(v, R.mm); b->push_back(x.x); }
+            after(va, ATOMIC, &vb, ATOMIC);
+        }
+        else if (o == "push_back") { Val x(R.vid(), R.mm); post.push_back(R.vid()); R.call([&] { a->push_back(x.x); }); after(post, ATOMIC); }
         else if (o == "pop_back") { if (!n) return skip(); post.pop_back(); R.call([&] { a->pop_back(); }); after(post, ATOMIC); }
         else if (o == "resize") {
             const size_t want = R.uarg("n") % 14; post.resize(want, 0);
